@@ -276,7 +276,7 @@ func RunPckExtCase(cs map[string]any, id int, seed int64) Result {
 		cert.Extensions = exts
 	}
 	var got *pcs.PckExtensions
-	out := Guard(10*time.Second, func() error {
+	out := Guard(90*time.Second, func() error {
 		var err error
 		got, err = pcs.PckCertificateExtensions(cert)
 		return err
